@@ -22,6 +22,9 @@ import time
 import traceback
 
 VERIF = os.path.dirname(os.path.dirname(os.path.abspath(__file__)))
+# build-time aid: QV_OUT redirects everything a run writes (evidence, replays, .last) so that seeded
+# changes can be evaluated in scratch worktrees (QV_REPO, see bin/check) without touching /verif's files
+OUT = os.environ.get("QV_OUT") or VERIF
 EXIT_OK, EXIT_VIOL, EXIT_HARNESS = 0, 1, 2
 
 
@@ -63,8 +66,12 @@ def _run_one(spec):
     import contextlib
 
     t0 = time.time()
+    # the per-item cap counts the worker's own CPU time (ITIMER_PROF), so that a loaded machine cannot
+    # turn a pass into "inconclusive"; a wall-clock alarm at 8x the cap is only a backstop
     signal.signal(signal.SIGALRM, _alarm)
-    signal.alarm(int(spec.get("_cap", _WORKER_CAP)))
+    signal.signal(signal.SIGPROF, _alarm)
+    signal.setitimer(signal.ITIMER_PROF, float(spec.get("_cap", _WORKER_CAP)))
+    signal.alarm(8 * int(spec.get("_cap", _WORKER_CAP)))
     try:
         with contextlib.redirect_stdout(io.StringIO()):
             r = _WORKER_FN(spec)
@@ -77,6 +84,7 @@ def _run_one(spec):
             "findings": [],
         }
     finally:
+        signal.setitimer(signal.ITIMER_PROF, 0)
         signal.alarm(0)
     r.setdefault("findings", [])
     r["wall_s"] = round(time.time() - t0, 3)
@@ -147,11 +155,11 @@ def main_for(mod, argv=None):
 def finish(mod, tier, seed, specs, results, t0):
     pid = mod.PID
     known = load_known(pid)
-    os.makedirs(os.path.join(VERIF, "replays", pid), exist_ok=True)
-    for old in os.listdir(os.path.join(VERIF, "replays", pid)):  # replay files of earlier runs
+    os.makedirs(os.path.join(OUT, "replays", pid), exist_ok=True)
+    for old in os.listdir(os.path.join(OUT, "replays", pid)):  # replay files of earlier runs
         if old.endswith(".json"):
             try:
-                os.unlink(os.path.join(VERIF, "replays", pid, old))
+                os.unlink(os.path.join(OUT, "replays", pid, old))
             except OSError:
                 pass
     n_viol = 0
@@ -178,7 +186,7 @@ def finish(mod, tier, seed, specs, results, t0):
                     )
                 continue
             n_viol += 1
-            path = os.path.join(VERIF, "replays", pid, "%s-%s.json" % (r["id"], f["kind"]))
+            path = os.path.join(OUT, "replays", pid, "%s-%s.json" % (r["id"], f["kind"]))
             with open(path, "w") as fh:
                 json.dump({"property": pid, "item": r["id"], "spec": spec, "finding": f}, fh, indent=1, default=str)
             if n_viol <= 20:
@@ -220,12 +228,12 @@ def finish(mod, tier, seed, specs, results, t0):
         "wall_s": round(wall, 2),
         "violations": n_viol,
     }
-    os.makedirs(os.path.join(VERIF, "evidence"), exist_ok=True)
-    with open(os.path.join(VERIF, "evidence", pid + ".json"), "w") as fh:
+    os.makedirs(os.path.join(OUT, "evidence"), exist_ok=True)
+    with open(os.path.join(OUT, "evidence", pid + ".json"), "w") as fh:
         json.dump(ev, fh, indent=1, default=str)
     try:  # build-time debugging aid (git-ignored): per-item timing and status
-        os.makedirs(os.path.join(VERIF, ".last"), exist_ok=True)
-        with open(os.path.join(VERIF, ".last", pid + ".json"), "w") as fh:
+        os.makedirs(os.path.join(OUT, ".last"), exist_ok=True)
+        with open(os.path.join(OUT, ".last", pid + ".json"), "w") as fh:
             json.dump([{"spec": sp, "status": r["status"], "wall_s": r.get("wall_s"), "note": r.get("note", "")[:200], "cls": r.get("cls"), "kinds": [f["kind"] for f in r["findings"]]} for sp, r in zip(specs, results)], fh, default=str)
     except Exception:
         pass
